@@ -8,6 +8,8 @@
  *     - as int16 and as float32 samples,
  *     - on a fresh decoder and after a "history": an earlier utterance processed with full_utt = TRUE (which enlarges
  *       the cepstrum buffer), so that more than 250 frames reach the live feature buffer in one later call,
+ *     - cut to a length that ends exactly on a window boundary (410 + 160 k samples), in pieces of 40 / 160 / 410 / 570 /
+ *       1000 samples and "all but 80 / 410 / 1 samples, then the rest",
  * with the channel-normalisation state reset to the same text before every utterance.  The signature of a run is the
  * hypothesis, its score, every segment (word, start, end frame), the number of frames searched and the phone alignment;
  * all signatures must be identical.  AddressSanitizer watches the buffers.
@@ -174,6 +176,23 @@ int main(int argc, char **argv)
     decoder_process_int16(d, pcm, nsamp, 0, 1);
     decoder_end_utt(d);
     family(d, "after a full_utt utterance", thorough, 0);
+    /* a recording that ends exactly on a window boundary (410 + 160 k samples): the trailing frame must not depend on
+     * how the last samples arrive */
+    {
+        static const size_t P[] = { 160, 40, 410, 570, 1000 };
+        size_t full = nsamp, n1; int v; char what[200];
+        nsamp = 410 + 160 * ((full - 410) / 160);
+        ref[0] = 0;
+        run(d, NULL, 0, 0, 0, 0, 0, "one call, recording cut to a window boundary");
+        for (i = 0; i < 5; i++) for (v = 0; v < 3; v++) {
+            snprintf(what, sizeof what, "recording of %zu samples (window boundary), pieces of %zu samples, %s", nsamp, P[i], v == 0 ? "int16" : v == 1 ? "float32" : "buffered then searched");
+            run(d, NULL, 0, P[i], v == 2, 0, v == 1, what);
+        }
+        n1 = nsamp - 80; snprintf(what, sizeof what, "recording of %zu samples (window boundary), all but 80 samples then 80", nsamp); run(d, &n1, 1, 0, 0, 0, 0, what);
+        n1 = nsamp - 410; snprintf(what, sizeof what, "recording of %zu samples (window boundary), all but one window then the window", nsamp); run(d, &n1, 1, 0, 0, 0, 0, what);
+        n1 = nsamp - 1; snprintf(what, sizeof what, "recording of %zu samples (window boundary), all but one sample then one sample", nsamp); run(d, &n1, 1, 0, 0, 0, 0, what);
+        nsamp = full;
+    }
     decoder_free(d);
     unlink(tinydict);
     printf("CASES %ld\nDISTINCT %ld\n", cases, distinct);
